@@ -146,6 +146,52 @@ limit_unit!(c10_limit255_well_known_name__len3, crate::well_known_name::validate
 #[cfg(not(verif_skip_c10_limit255_unique_name__len3))]
 limit_unit!(c10_limit255_unique_name__len3, crate::unique_name::validate_bytes, spec_unique_name, b':', b'1', b'.', b'a', "C10.limit255.unique_name.accepts_iff_spec");
 
+// NOTE (tool limit, measured): the same fully concrete 255/256-byte units for the DOTTED names (interface, error,
+// well-known, unique, BusName dispatch) do not finish under CBMC (winnow `separated` over a 256-byte input: > 15 min
+// each even with no symbolic input), so the 255-byte clause is decided for member names only; for dotted names it
+// is stated in the validators' contracts (spec_* include len <= 255) but exercised only up to the string bound.
+// ---- the 255-byte limit, fully concrete (quick tier): a valid-shaped name of exactly 255 bytes is accepted and of
+// exactly 256 bytes is rejected -- by each validator AND by every public constructor ("however constructed":
+// BusName dispatches to the validators directly, so a limit enforced only in a wrapper would be bypassed).
+fn name_of<const L: usize>(b0: u8, b1: u8, b2: u8, b3: u8) -> [u8; L] {
+    let mut buf = [b'a'; L];
+    buf[0] = b0; buf[1] = b1; buf[2] = b2; buf[3] = b3;
+    buf
+}
+macro_rules! limit_concrete_unit {
+    ($name:ident, $b0:expr, $b1:expr, $b2:expr, $b3:expr, |$s:ident| $call:expr, $o255:literal, $o256:literal) => {
+        #[cfg(kani)]
+        #[kani::proof]
+        #[kani::stub(alloc::fmt::format, stub_format)]
+        #[kani::unwind(260)]
+        fn $name() {
+            let b255 = name_of::<255>($b0, $b1, $b2, $b3);
+            let b256 = name_of::<256>($b0, $b1, $b2, $b3);
+            {
+                let $s: &str = unsafe { core::str::from_utf8_unchecked(&b255[..]) };
+                let ok: bool = $call;
+                obl!($o255, ok);
+            }
+            {
+                let $s: &str = unsafe { core::str::from_utf8_unchecked(&b256[..]) };
+                let ok: bool = $call;
+                obl!($o256, !ok);
+            }
+        }
+    };
+}
+fn ok_forget<T, E>(r: core::result::Result<T, E>) -> bool { let ok = r.is_ok(); core::mem::forget(r); ok }
+// @unit C10.limit.member_name props=C10 kind=instance bound=concrete-names-of-255-and-256-bytes fn=zbus_names::member_name::validate_bytes,<zbus_names::MemberName.as.TryFrom<&str>>::try_from timeout=900
+#[cfg(not(verif_skip_c10_limit_member_name__c255))]
+limit_concrete_unit!(c10_limit_member_name__c255, b'a', b'a', b'a', b'a',
+    |s| crate::member_name::validate_bytes(s.as_bytes()).is_ok() && ok_forget(MemberName::try_from(s)),
+    "C10.limit.member_name.255_bytes_accepted", "C10.limit.member_name.256_bytes_rejected");
+// @unit C10.limit.member_name_ctor props=C10 kind=instance bound=concrete-names-of-255-and-256-bytes fn=<zbus_names::MemberName.as.TryFrom<&str>>::try_from timeout=900
+#[cfg(not(verif_skip_c10_limit_member_name_ctor__c255))]
+limit_concrete_unit!(c10_limit_member_name_ctor__c255, b'a', b'a', b'a', b'a',
+    |s| ok_forget(MemberName::try_from(s)),
+    "C10.limit.member_name_ctor.255_bytes_accepted", "C10.limit.member_name_ctor.256_bytes_rejected");
+
 // @unit CANARY.zbus_names props=CANARY kind=complete expect=fail timeout=300
 #[cfg(not(verif_skip_canary_zbus_names_must_fail))]
 #[cfg(kani)]
